@@ -538,6 +538,21 @@ theorem copy_eq {len n : Nat} (arg : Ref len n) (mem : Mem len) : copy arg mem =
   ext i hi
   simp [Lemma.get_load]
 
+/-- `dest = static_<…>(src)` (converting constructor, then assignment from the temporary) gives `dest` the value of the temporary;
+    with `copy_eq`: the value `src` had before the statement, whatever `src` aliases -/
+theorem assignValue_eq {len n : Nat} (dest : Ref len n) (v : Storage n) (mem : Mem len) (i : Fin n) :
+    (dest.load (assignValue dest v mem)).get i = v.get i := by
+  simp only [Lemma.get_load, assignValue, Ref.read, Ref.write]
+  exact (Lemma.loop_write_const n dest.addr v.get mem (Lemma.addr_injective _)).1 i
+
+theorem assignValue_copy_eq {len n : Nat} (dest src : Ref len n) (mem : Mem len) (i : Fin n) :
+    (dest.load (assignValue dest (copy src mem) mem)).get i = (src.load mem).get i := by
+  rw [assignValue_eq, copy_eq]; simp [toArray]
+
+theorem assignValue_frame {len n : Nat} (dest : Ref len n) (v : Storage n) (mem : Mem len) (a : Fin len) (ha : dest.Outside a) :
+    (assignValue dest v mem)[a] = mem[a] :=
+  Lemma.loop_frame n dest.addr _ (fun _ _ _ h => Lemma.set_frame _ _ _ _ h) mem a ha
+
 theorem ref_getUnsafe_ok {len n : Nat} (v : Ref len n) (i : Fin n) : v.getUnsafe i.val = .ok (v.atI i) := by simp [Ref.getUnsafe, Ref.atI]
 theorem ref_getUnsafe_oob {len n : Nat} (v : Ref len n) (i : Nat) (h : n ≤ i) : v.getUnsafe i = .error .oob := by
   simp [Ref.getUnsafe, Nat.not_lt.2 h]
